@@ -393,6 +393,7 @@ fn run_workload_x(sink: &Arc<Mutex<Sink>>, w: Arc<Workload>, origin: &str, sched
         runner.run(move || {
             // simulated clock of the instrumented build: fresh jump sequence per execution
             verif_shim::vtime::reseed(w.hash() ^ verif_shim_exec_counter());
+            verif_shim::vtls::new_execution();
             let events = scenario::run_execution(w.clone());
             sink2.lock().unwrap().on_execution(&events);
         })
@@ -456,6 +457,19 @@ fn tier_cfg(tier: &str) -> GenCfg {
     }
 }
 
+/// All calls of the workload on one simulated thread, in thread order (used when the plain build
+/// meets a library with per-thread state, which the simulated threads of one OS thread would share).
+fn sequential(mut w: Workload) -> Workload {
+    let calls: Vec<_> = w.threads.iter().flat_map(|t| t.calls.iter().cloned()).collect();
+    w.threads.truncate(1);
+    if let Some(t) = w.threads.first_mut() {
+        t.calls = calls;
+        t.parent = 0;
+        t.after = 0;
+    }
+    w
+}
+
 fn plan_run(seed: u64, idx: u64, tier: &str) -> RunPlan {
     let mut rng = Rng::derive(seed, idx, 16);
     let cfg = tier_cfg(tier);
@@ -468,6 +482,7 @@ fn plan_run(seed: u64, idx: u64, tier: &str) -> RunPlan {
     } else {
         gen_workload(&mut rng, &cfg)
     };
+    let w = if std::env::var_os("VERIF_C16_SEQUENTIAL").is_some() { sequential(w) } else { w };
     let sched = match rng.below(10) {
         0..=4 => SchedKind::Random,
         5..=8 => SchedKind::Pct(1 + rng.usize_below(5)),
@@ -571,6 +586,7 @@ fn cold_into(sink: &Arc<Mutex<Sink>>, seed: u64, index: u64, tier: &str) -> Opti
         }
         w
     };
+    let w = if std::env::var_os("VERIF_C16_SEQUENTIAL").is_some() { sequential(w) } else { w };
     let sched = if rng.chance(1, 2) { SchedKind::Random } else { SchedKind::Burst(*rng.pick(&[128u64, 192, 224, 240, 250])) };
     let sched_seed = rng.next_u64();
     let origin = format!("seed={} cold={} sched={}", seed, index, sched.name());
@@ -622,6 +638,7 @@ fn soak_params(seed: u64, index: u64, tier: &str) -> (usize, usize, bool, Rng) {
 fn soak_into(sink: &Arc<Mutex<Sink>>, seed: u64, index: u64, tier: &str) -> Option<String> {
     let (k, traffic, two, mut rng) = soak_params(seed, index, tier);
     let w = gen_soak_workload(&mut rng, k, traffic, two);
+    let w = if std::env::var_os("VERIF_C16_SEQUENTIAL").is_some() { sequential(w) } else { w };
     let origin = format!("seed={} soak={} k={} traffic={} threads={}", seed, index, k, SOAK_TRAFFIC[traffic], if two { 2 } else { 1 });
     {
         let mut s = sink.lock().unwrap();
